@@ -105,6 +105,13 @@ def gen_maps(ctx):
             else:
                 d.append([nm, rval()])
         out.append(("random-map", d))
+    RFC_NAMES = ["ALTREP", "CN", "CUTYPE", "DELEGATED-FROM", "DELEGATED-TO", "DIR", "ENCODING", "FMTTYPE", "FBTYPE", "LANGUAGE",
+                 "MEMBER", "PARTSTAT", "RANGE", "RELATED", "RELTYPE", "ROLE", "RSVP", "SENT-BY", "TZID", "VALUE"]
+    plain = ["a@example.com", "team-a", "mailto:b@example.com", "x", "EN", "TRUE", "http://e.x/y", "b c"]
+    for nm in RFC_NAMES:                      # every RFC 5545 parameter name, single and multi-valued, quoted or not
+        out.append(("rfc-name", [[nm, rng.choice(plain)]]))
+        out.append(("rfc-name", [[nm, [rng.choice(plain) for _ in range(rng.randrange(2, 4))]]]))
+        out.append(("rfc-name", [[nm.lower(), ["team-a", "team-b"]], ["X-OTHER", "1"]]))
     corpus = [[["CN", "a\\"]], [["A", "x\\"], ["Q", "r"]], [["X", ["a", "b"]]], [["X", ["a"]]], [["x-y", "a,b"]],
               [["X", "%2C"]], [["X", ""]], [["X", ["", ""]]], [["b", "1"], ["A", "2"]]]
     return [("corpus", d) for d in corpus] + out
